@@ -88,13 +88,13 @@ static void run() {
     std::vector<unsigned> argsv; for (unsigned i = 0; i < 8; i++) argsv.push_back(i);
     for (unsigned v : {8u, 16u, 24u}) argsv.push_back(v);
     for (unsigned kx = 0; kx < 8; kx++) { argsv.push_back(0xF8u | kx); argsv.push_back(0xFFFFFFF8u | kx); }
-    { Case c; c.set("kind", "default"); set_current(c); std::string m = oracle(c); if (!m.empty()) { record_failure(c, m); return; } }
+    { Case c; c.set("kind", "default"); set_current(c); std::string m = oracle(c); if (!m.empty() && enum_fail(c, m)) return; }
     uint64_t idx = 0, done = 0;
     for (unsigned arg : argsv) for (unsigned f = 0; f < 32; f++) for (int hi = 0; hi < 2; hi++) for (int l = 0; l < 2; l++) {
         if ((int)(idx++ % (uint64_t)a.nworkers) != a.worker) continue;
         Case c; c.set("calls", hex(le32s(arg))); c.set("f", f); c.set("hi", (uint64_t)hi); c.set("secret", hex(std::string(19, (char)(0x11 * (f % 15) + arg)))); c.set("birthday", (f * 33 + arg) % 1024); c.set("coin", (f * 67 + arg * 3) % 2048);
         c.set("lang", REG->at((a.seed + f + arg + (unsigned)l * 5) % REG->size()).name_en); c.set("badcheck", 1);
-        set_current(c); std::string m = oracle(c); done++; if (!m.empty()) { record_failure(c, m); return; }
+        set_current(c); std::string m = oracle(c); done++; if (!m.empty() && enum_fail(c, m)) return;
     }
     ev.enumerated["enable argument (27 values) x feature value (32) x create-argument high bits (2) x 2 languages, four entry points each"] += done;
     rc_run("c10-histories", a.n(40000, 300000), 100, [&]() {
